@@ -9,6 +9,8 @@ import Bmc.Proofs.C01
 #print axioms Bmc.Proofs.C01.hfit_of_lawful
 #print axioms Bmc.Proofs.C01.response_returned
 #print axioms Bmc.Proofs.C01.responseMsg_wf
+#print axioms Bmc.Proofs.C01.handshake_succeeds_despite_loss
+#print axioms Bmc.Proofs.C01.lost_and_truncated_are_skipped
 #print axioms Bmc.Proofs.C01.command_answered
 #print axioms Bmc.Proofs.C01.all_commands_answered
 #print axioms Bmc.Proofs.C01.session_then_commands
